@@ -3,6 +3,7 @@ Scipy sparse linear solver with SuperLU backend.
 """
 
 import numpy as np
+from kvxopt import matrix
 
 from scipy.sparse import csc_matrix
 from scipy.sparse.linalg import spsolve, splu
@@ -71,8 +72,18 @@ class SpSolve(SciPySolver):
         """
 
         A_csc = spmatrix_to_csc(A)
-        b = np.ravel(b)
-        return spsolve(A_csc, b)
+        rhs = np.array(b, dtype=float)
+        if rhs.ndim == 2 and rhs.shape[1] == 1:
+            rhs = rhs.ravel()
+
+        x = spsolve(A_csc, rhs)
+
+        # store the solution in `b` like the SuiteSparse solvers do; callers such as
+        # `EIG._reduce` pass a matrix right-hand side and use it in place
+        if isinstance(b, matrix):
+            b[:, :] = matrix(np.reshape(x, b.size))
+
+        return np.ravel(x)
 
 
 def spmatrix_to_csc(A):
